@@ -215,6 +215,8 @@ def _replay_chunk(args):
                 exp_events = rec.get('ulog', [])
                 if rec['out'][0] == 'exc':
                     exp_events = [e for e in exp_events if e[1] < rec['xlog']]
+                # events inside module-level callees (flag 1) exist only when the callee is converted as well
+                exp_events = [e[:2] for e in exp_events if len(e) < 3 or e[2] == 0 or o['recursive']]
                 if 'ulog' in rec and agree(rec, res) is None and not embeds(exp_events, recorder.events):
                     routing.append(dict(pid=pid, dec=rec['dec'], opt=o['name'], expected=exp_events,
                                         observed=[list(e) for e in recorder.events]))
